@@ -88,4 +88,27 @@ theorem endLoc_frac_nonneg (l : Line Rat) : 0 ≤ (endLoc l).frac := by
   unfold endLoc
   cases l.getLast? <;> simp <;> grind
 
+/-- `getLength (getLocation ℓ) = ℓ` for `0 ≤ ℓ ≤ total` -/
+theorem loc_len_inverse' (l : Line Rat) (hwf : l.WF = true) (hnn : l.NonNeg) (ℓ : Rat)
+    (h0 : 0 ≤ ℓ) (h1 : ℓ ≤ totalLen l) : getLength l (getLocation l ℓ) = ℓ := by
+  have hneg : ¬ ℓ < 0 := by grind
+  simp only [getLocation, hneg, if_false, getLocationForward]
+  by_cases hz : ℓ ≤ 0
+  · have : ℓ = 0 := by grind
+    subst this
+    simp only [Rat.le_refl, if_true, getLength_start l hwf]
+  · simp only [hz, if_false]
+    cases hr : locFwdAux ℓ 0 (items l) with
+    | some a =>
+      simp only [Option.getD_some, getLength]
+      exact lenAux_locFwdAux ℓ (items l) 0 a (okItems_itemsFrom 0 l) (by grind) hr
+    | none =>
+      exfalso
+      have hl : l ≠ [] := by
+        intro h; subst h
+        simp [totalLen, sumFrom] at h1; grind
+      have := locFwdAux_none ℓ (items l) 0 (by grind) (lastIsEol_itemsFrom 0 l hl) hr
+      rw [← totalLen_eq] at this
+      grind
+
 end GeosModel.LinRef
